@@ -85,8 +85,15 @@ func runC01(c *Ctx) {
 
 	// ---------- C01.a Mount gate ----------
 	c.clause("C01.a", "T1", "RootNode (and blob exposure) is reached only after Verify(d) succeeded with d parsed from the label/directory name, or after SkipVerify on an explicitly allowed edge", 3)
-	if f := c.mustFn("fs", "(*filesystem).Mount"); f != nil {
-		roots := callsIn(f, idIs(lp+".(Layer).RootNode"))
+	if mf := c.mustFn("fs", "(*filesystem).Mount"); mf != nil {
+		roots := callsIn(mf, idIs(lp+".(Layer).RootNode"))
+		// the verification decision lives in Mount itself or in a helper that Mount owns (extract-method refactoring)
+		f := mf
+		for _, hf := range c.withHelpers(mf) {
+			if hf.Parent() == nil && len(callsIn(hf, idIs(lp+".(Layer).Verify"))) > 0 {
+				f = hf
+			}
+		}
 		verifies := callsIn(f, idIs(lp+".(Layer).Verify"))
 		skips := callsIn(f, idIs(lp+".(Layer).SkipVerify"))
 		k := newCuts()
@@ -99,7 +106,7 @@ func runC01(c *Ctx) {
 					// parsed string = labels[estargz.TOCJSONDigestAnnotation]
 					if le, ok := stripConv(pc.Call.Args[0]).(*ssa.Extract); ok {
 						if lk, ok := le.Tuple.(*ssa.Lookup); ok {
-							if key, ok := constString(lk.Index); ok && key == c.constVal("estargz", "TOCJSONDigestAnnotation") && addrKey(lk.X) == "labels" {
+							if key, ok := constString(lk.Index); ok && key == c.constVal("estargz", "TOCJSONDigestAnnotation") && (addrKey(lk.X) == "labels" || isParamish(lk.X)) {
 								dOK = true
 							}
 						}
@@ -163,6 +170,45 @@ func runC01(c *Ctx) {
 				k.addInstr(s)
 			}
 		}
+		if f != mf {
+			// the helper reports success only after a verification (or gated skip); Mount proceeds only on its success
+			hOK := true
+			for _, r := range realReturns(f) {
+				if returnsNilError(r) {
+					if o, _ := mustPass(f, r, k); !o {
+						hOK = false
+					}
+				}
+			}
+			c.verdict(c.fnKey(f)+":verifies-before-success", f.Pos(), hOK && nGood > 0, "the helper returns nil only after Verify succeeded or a gated SkipVerify", "the verification helper can return nil without having verified the layer")
+			k = newCuts()
+			var hcalls []ssa.CallInstruction
+			for _, ci := range callsIn(mf, func(_ string, ci ssa.CallInstruction) bool { return staticFn(ci) == f }) {
+				hcalls = append(hcalls, ci)
+				if hOK {
+					k.addEdges(successEdges(mf, ci))
+				}
+			}
+			for _, r := range roots {
+				okp, path := mustPass(mf, r, k)
+				c.verdict(c.fnKey(mf)+":RootNode-gate", r.Pos(), okp && nGood > 0 && len(hcalls) > 0, "RootNode only after the verification helper succeeded", "the layer's root node is obtained on a path without successful verification: "+c.pathStr(mf, path))
+				same := false
+				for _, hc := range hcalls {
+					for _, a := range hc.Common().Args {
+						if sameValue(a, r.Common().Value) {
+							same = true
+						}
+					}
+				}
+				c.verdict(c.fnKey(mf)+":same-layer", r.Pos(), same, "the verified layer is the mounted layer", "RootNode is taken from a different layer object than the one verified")
+			}
+			roots = nil
+			if len(hcalls) == 0 {
+				c.bad(c.fnKey(mf)+":RootNode", mf.Pos(), "Mount does not call its verification helper")
+			} else {
+				goto doneMount
+			}
+		}
 		for _, r := range roots {
 			okp, path := mustPass(f, r, k)
 			c.verdict(c.fnKey(f)+":RootNode-gate", r.Pos(), okp && nGood > 0, "RootNode only after Verify success or gated SkipVerify", "the layer's root node is obtained on a path without successful verification: "+c.pathStr(f, path))
@@ -178,6 +224,7 @@ func runC01(c *Ctx) {
 		if len(roots) == 0 {
 			c.bad(c.fnKey(f)+":RootNode", f.Pos(), "Mount no longer obtains the root node through Layer.RootNode")
 		}
+	doneMount:
 	}
 	// the store's Lookup is C16.d; re-checked here as an instance of the same gate
 	if f := c.mustFn("store", "(*layernode).Lookup"); f != nil {
